@@ -239,6 +239,31 @@ var scenarios = []scenario{
 		}
 		// the same for a directory-sized object is covered by the enumeration scenarios
 	}},
+	{"write straddling the end of file while a truncation is still pending", func(s *seqRun) {
+		// a truncation too large for one transaction leaves the inode shrinking (finished in the
+		// background, or — just below the journal's capacity — by whoever touches the file next);
+		// a WRITE that starts inside the file and ends beyond it must not resurrect the old bytes
+		for i, nblk := range []uint64{507, 508, 509, 700} {
+			f := s.mk("create", s.root(), fmt.Sprintf("t%d", i))
+			for b := uint64(0); b < nblk; b += 64 {
+				n := uint64(64)
+				if b+n > nblk {
+					n = nblk - b
+				}
+				s.opWrite(f, b*4096, uint32(n*4096), 0, pat(byte(0xb0+i), int(n*4096)))
+			}
+			sz := uint64(8192)
+			s.opSetattr(f, &sz, timeHow{}, timeHow{})
+			s.opWrite(f, 8000, 492, 2, pat(0x77, 492)) // [8000, 8492): starts inside, ends beyond
+			sz = 16384
+			s.opSetattr(f, &sz, timeHow{}, timeHow{})
+			s.opRead(f, 4096, 12288)
+			sz = 3 * 4096
+			s.opSetattr(f, &sz, timeHow{}, timeHow{})
+			s.opWrite(f, 20000, 100, 2, pat(0x78, 100)) // beyond the end: a hole in between
+			s.opRead(f, 8192, 16384)
+		}
+	}},
 	{"block-map boundaries", func(s *seqRun) {
 		f := s.mk("create", s.root(), "f")
 		for _, off := range []uint64{7*4096 + 100, (8+511)*4096 + 4000, (8+512+511)*4096 + 1, (8 + 512 + 512*3) * 4096} {
